@@ -291,7 +291,7 @@ def _recognition_strategy():
 
 
 def sub_recognition(ctx, shard, n):
-    ctx.given("recognition", check_recognition, _recognition_strategy(), 1000 if ctx.quick else 4000)
+    ctx.given("recognition", check_recognition, _recognition_strategy(), 1000 if ctx.quick else 15000)
 
 
 SUBS = [
